@@ -190,4 +190,48 @@ theorem chv_pack_unpack_canonical (b0 b1 b2 : Nat) (h0 : b0 < 256) (h1 : b1 < 25
   simp only [Option.some.injEq, Prod.mk.injEq]
   omega
 
+theorem or_mul_pow_distrib (a b k : Nat) : a * 2 ^ k ||| b * 2 ^ k = (a ||| b) * 2 ^ k := by
+  rw [← Nat.shiftLeft_eq, ← Nat.shiftLeft_eq, ← Nat.shiftLeft_eq, Nat.shiftLeft_or_distrib]
+
+theorem small_or_facts : ∀ H, H < 16 → ∀ C, C < 4 → (H ||| C) < 16 ∧ (H ||| C) % 4 = C ||| H % 4 := by
+  decide
+
+/-- `(X*2^k + D) ||| (Y*2^k)` with `D < 2^k` -/
+theorem or_high (X Y D k : Nat) (hD : D < 2 ^ k) :
+    (X * 2 ^ k + D) ||| (Y * 2 ^ k) = (X ||| Y) * 2 ^ k + D := by
+  rw [← mul_pow_or X k D hD, Nat.or_comm (X * 2 ^ k) D, Nat.or_assoc, or_mul_pow_distrib, Nat.or_comm,
+    mul_pow_or _ k D hD]
+
+/-- `pack (unpack b)` for every byte pattern of a 0.6 vital chunk header: the two sequence bits that
+are stored twice are or-ed together (doc/packet.md; the crate's quickcheck `chunk_header_unpack`) -/
+theorem chv_pack_unpack_all (b0 b1 b2 : Nat) (h0 : b0 < 256) (h1 : b1 < 256) (h2 : b2 < 256) :
+    chunkHeaderVitalPack (chunkHeaderVitalUnpackWarn b0 b1 b2).1 =
+      some (b0, b1 ||| ((b2 &&& 192) >>> 2), b2 ||| ((b1 &&& 48) <<< 2)) := by
+  rw [chv_unpack_eq _ _ _ h2]
+  -- the sequence number: H*64 ||| (C*64 + D) = (H ||| C)*64 + D
+  have hH : b1 / 16 % 16 = b1 / 16 := by omega
+  have hb2 : b2 = b2 / 64 * 64 + b2 % 64 := by omega
+  have hS : (b1 / 16 % 16 * 64) ||| b2 = (b1 / 16 ||| b2 / 64) * 64 + b2 % 64 := by
+    rw [hH]
+    conv => lhs; rw [hb2]
+    rw [Nat.or_comm, or_high (b2 / 64) (b1 / 16) (b2 % 64) 6 (by omega), Nat.or_comm]
+  obtain ⟨hX, hXm⟩ := small_or_facts (b1 / 16) (by omega) (b2 / 64) (by omega)
+  rw [hS, chv_pack_eq _ (by simp only; omega) (by simp only; omega) (by simp only; omega)]
+  simp only [and_192, and_48, Nat.shiftRight_eq_div_pow, Nat.shiftLeft_eq, Nat.reducePow]
+  -- expected second and third byte
+  have hb1 : b1 = b1 / 16 * 16 + b1 % 16 := by omega
+  have e2 : b1 ||| b2 / 64 % 4 * 64 / 4 = (b1 / 16 ||| b2 / 64) * 16 + b1 % 16 := by
+    have : b2 / 64 % 4 * 64 / 4 = b2 / 64 * 16 := by omega
+    rw [this]
+    conv => lhs; rw [hb1]
+    exact or_high (b1 / 16) (b2 / 64) (b1 % 16) 4 (by omega)
+  have e3 : b2 ||| b1 / 16 % 4 * 16 * 4 = (b2 / 64 ||| b1 / 16 % 4) * 64 + b2 % 64 := by
+    have : b1 / 16 % 4 * 16 * 4 = b1 / 16 % 4 * 64 := by omega
+    rw [this]
+    conv => lhs; rw [hb2]
+    exact or_high (b2 / 64) (b1 / 16 % 4) (b2 % 64) 6 (by omega)
+  rw [e2, e3, ← hXm]
+  simp only [Option.some.injEq, Prod.mk.injEq]
+  omega
+
 end Tw.Packet6
